@@ -20,7 +20,8 @@ RULE = (
     "without bus as non-matching controls); compiled once per program with the generic harness, the reflection binary loaded "
     "for the run-time schema. Per binding 8 (quick) / 40 (thorough) values and, per program, frames with non-matching "
     "(id, bus): unused id with a used bus, used id with an unused bus, and near misses of a declared pair (bus extended by "
-    "one character, truncated, upper-cased, reversed; id off by one; a digit moved between the id and the bus tag). Oracle for CanStaticSchema and "
+    "one character, truncated, upper-cased, reversed; id off by one; a digit moved between the id and the bus tag; "
+    "identifiers above 2047 with the same low 11 bits). Oracle for CanStaticSchema and "
     "CanDynamicSchema: (a) Encode(name, v) == {bus NUL-padded to 4, sid = id, dlc = len(canonical bytes), data = canonical "
     "bytes + zeros}; (b) Decode(that frame) == (name, v); (c) a frame whose (id, bus) matches no binding => nullopt; (d) "
     "both schemas agree. Non-trivial = program with >= 2 bindings, or a bus shorter than 4, or a payload that is not a byte "
@@ -61,9 +62,15 @@ def program(draw, n_values: int):
         if declared and draw(st.booleans()):
             # near misses of a declared (id, bus): the bus extended, truncated, case-changed, or the id off by one
             bid, bbus = draw(st.sampled_from(declared))
-            k = draw(st.integers(0, 6))
+            k = draw(st.integers(0, 8))
             sid = str(bid)
-            if k == 5 and len(sid) >= 2 and len(bbus) < 4 and sid[1] != "0":
+            if k >= 7:
+                # the frame's identifier field is 16 bits wide: ids above 2047 with the same low 11 bits, on the
+                # binding's bus or on a bus whose last character is shifted by the carried-out bits
+                d = draw(st.integers(1, 3))
+                fid = bid + 2048 * d
+                bus = bbus if k == 7 else bbus[:-1] + chr(max(48, ord(bbus[-1]) - d))
+            elif k == 5 and len(sid) >= 2 and len(bbus) < 4 and sid[1] != "0":
                 # same concatenation "bus|id": one digit moved from the id to the bus tag
                 fid, bus = int(sid[1:]), bbus + sid[0]
             elif k == 6 and len(bbus) > 1 and bbus[-1].isdigit() and int(bbus[-1] + sid) <= 2047:
